@@ -42,7 +42,7 @@ StepOK(g, o, t) ==
      /\ o.op = "SyncState" => (x.ret.release = o.release /\ x.ret.players = o.handed)
 
 Bump(c, S) == [k \in (DOMAIN c) \cup S |-> (IF k \in DOMAIN c THEN c[k] ELSE 0) + (IF k \in S THEN 1 ELSE 0)]
-AddViol(v, line, names) == IF Cardinality(v) >= MaxViol THEN v ELSE v \cup {<<line, nm>> : nm \in names}
+AddViol(v, line, names) == v \cup {<<line, nm>> : nm \in {x \in names : Cardinality({w \in v : w[2] = x}) < MaxViol}}   \* at most MaxViol entries PER CLAUSE: a flood of one clause (a known finding) never hides another
 Init == l = 1 /\ e = ToE(Trace[1]) /\ s = Settle0 /\ viol = {} /\ drift = {} /\ cnt = [k \in {} |-> 0]
 Step ==
   /\ l < Len(Trace) /\ l' = l + 1
